@@ -42,6 +42,11 @@ def gen_history(rng, n):
             # signed only by the keys listed under the look-alike name
             U = M.envelope(mkroot(cur_ver + 1, alias_keys, 1), alias_keys)
             offers.append(U); tags.append("look-alike-role-keys")
+        elif r < 0.63:
+            # keeps every current root key in the list, adds its own, and is signed by the added keys only
+            others = tuple(i for i in range(4) if i not in cur_keys) or (3,)
+            U = M.envelope(M.root_md(cur_ver + 1, tuple(cur_keys) + others, 1), others)
+            offers.append(U); tags.append("keep-and-add")
         elif r < 0.65:
             others = tuple(i for i in range(4) if i not in cur_keys) or (3,)
             U = M.envelope(M.root_md(cur_ver + 1, others, 1), others)
@@ -80,7 +85,7 @@ def gen_history(rng, n):
 
 def run(ctx):
     rng = ctx.rng
-    nh = 25 if ctx.quick else 250
+    nh = 25 if ctx.quick else 150
     maxlen = 12 if ctx.quick else 40
     hist = [gen_history(rng, rng.randint(1, maxlen)) for _ in range(nh)]
     cases, pcases, singles = [], [], []
